@@ -15,7 +15,27 @@ def fam_c11_handshake(rng, i):
     """the shared `handshake` family with whole datagrams recorded (needed to see coalesced Handshake packets)"""
     p = e2e_props.fam_handshake(rng, i)
     p["wire_head"] = 1600
+    if p.get("max_mtu") == 1200:
+        p["max_mtu"] = 1300     # the IO provider refuses an MTU of 1200 (setup panics before any datagram)
     return p
+
+
+def fam_c11_amplimit(rng, i):
+    """the client's first Initial arrives, everything else from the client is lost for a while: the server has to
+    stop after three times the bytes of that one datagram (retransmissions and probes included), then the
+    network heals and the handshake completes"""
+    heal = rng.choice([700, 1500, 4000, 9000])
+    p = {
+        "seed": rng.randrange(1, 2**40), "bidi": 1, "size": rng.choice([100, 20000]), "chunk": 1000,
+        "delay_ms": rng.choice([1, 5, 25]), "bh": f"1:{heal}:1", "deadline_ms": 120000, "wire_head": 1600, "payloads": 0,
+        "max_mtu": rng.choice([0, 0, 1300, 9000]),
+    }
+    if rng.random() < 0.5:
+        # some server datagrams are lost too, some client datagrams get through late
+        p["drop_pm"] = rng.choice([100, 300])
+        p["dup_pm"] = rng.choice([0, 200])
+        p["faults_until_ms"] = heal + 2000
+    return e2e_props._nz(p)
 
 
 STRAY_SIZES = [20, 40, 41, 42, 43, 44, 58, 100, 600, 1199, 1200, 1201, 1350]
@@ -27,7 +47,7 @@ def fam_c11_unknown(rng, i):
     p = {
         "seed": rng.randrange(1, 2**40), "bidi": 1, "size": rng.choice([60000, 150000]), "chunk": 4000,
         "delay_ms": rng.choice([2, 10, 25]), "deadline_ms": 60000, "wire_head": 1600, "sreset": 1,
-        "inject_kind_pm": 1000, "payloads": 0,
+        "inject_kind_pm": 1000, "inject_burst": rng.choice([2, 8]), "payloads": 0,
     }
     k = i % 6
     if k < 3:
@@ -44,6 +64,7 @@ def fam_c11_unknown(rng, i):
 
 e2e_props.FAMILIES.setdefault("c11-handshake", fam_c11_handshake)
 e2e_props.FAMILIES.setdefault("c11-unknown", fam_c11_unknown)
+e2e_props.FAMILIES.setdefault("c11-amplimit", fam_c11_amplimit)
 
 
 def run(ctx):
@@ -74,7 +95,20 @@ def run(ctx):
     else:
         step_diff(ctx, "vh-transport", "amplification", "amplification", tier_n(ctx, 400, 40000))
     # ---- tie T
-    e2e_props.run_family(ctx, "c11-handshake", [e2e_c11.o_c11], 32, 600)
+    e2e_props.run_family(ctx, "c11-handshake", [e2e_c11.o_c11], 24, 600)
+    lim = {"unvalidated_server_datagrams": 0, "reached_limit": 0, "client_initials": 0}
+
+    def nt_lim(tr, s):
+        st = e2e_c11.stats(tr)
+        for k in lim:
+            lim[k] += st[k]
+        return s["end"] == "ok" and st["reached_limit"] > 0
+
+    e2e_props.run_family(ctx, "c11-amplimit", [e2e_c11.o_c11], 12, 200, nontrivial=nt_lim)
+    ctx.extra["c11_amplimit_family"] = dict(lim)
+    ctx.oblige("coverage", f"T:c11-amplimit drove the server to its amplification limit ({lim['reached_limit']} datagrams ended exactly at/over 3x, "
+               f"{lim['unvalidated_server_datagrams']} server datagrams before validation)", lim["reached_limit"] > 0,
+               "no scenario reached the limit: the family no longer exercises the property")
     seen = {"replies": 0, "vn_replies": 0, "sreset_replies": 0, "strays": 0}
 
     def nontrivial(tr, s):
